@@ -173,6 +173,8 @@ pub enum ItemExp { Entry(Vec<RelExp>), Substvar(String) }
 
 // (two names that differ where '+' and '-' sort differently under byte order and under "split at dashes" orders)
 const NAMES: &[&str] = &["libfoo2.0-dev", "a", "g++", "x~y", "python3-dulwich", "c-ares", "zlib1g", "c+tools", "a-b", "a1", "lib9", "lib10", "0ad", "7zip", "libX11-dev", "R-base"];   // (upper-case letters: lexer-valid, compared exactly)
+// names that look like something else at their start: a version number (digits and dots), an operator-free number
+const ODD_NAMES: &[&str] = &["4.4bsd-lite", "2.6-headers", "3dchess", "9base", "1.0", "0", "a.b", "x11-apps+", "z-1.2.3"];
 // names of real build dependencies (packaging helpers next to ordinary packages): every third concretisation draws from here
 const REAL_NAMES: &[&str] = &["debhelper-compat", "cmake", "R-base", "dh-python", "libX11-dev", "autoconf", "pkgconf", "cdbs", "bison", "dpkg-dev", "debhelper", "python3-all", "dh-sequence-python3", "build-essential", "dpkg-build-api", "libc6-dev", "zlib1g-dev", "perl", "dh-exec"];
 const _UNUSED: &[&str] = &[];   // (digit-leading names)   // (lib10 < lib9 in byte order)
@@ -204,7 +206,7 @@ pub fn concretise_field(case: &Value, map: usize) -> (String, Vec<String>) {
             "NEWLINE" => "\n".into(),
             "WHITESPACE" => { ws_n += 1; match map { 0 => " ".to_string(), 1 => "\t".into(), _ => [" ", "  ", "\t", " \t"][ws_n % 4].to_string() } }
             "IDENT" => match role {
-                "name" => if map % 3 == 2 { REAL_NAMES[(e as usize * 2 + r as usize + map / 3) % REAL_NAMES.len()].to_string() } else { NAMES[(e as usize * 2 + r as usize + map) % NAMES.len()].to_string() },
+                "name" => if map % 3 == 1 && (e as usize + r as usize) % 2 == 1 { ODD_NAMES[(e as usize + r as usize * 3 + map / 3) % ODD_NAMES.len()].to_string() } else if map % 3 == 2 { REAL_NAMES[(e as usize * 2 + r as usize + map / 3) % REAL_NAMES.len()].to_string() } else { NAMES[(e as usize * 2 + r as usize + map) % NAMES.len()].to_string() },
                 "aq" => AQS[(e as usize + r as usize + map) % AQS.len()].to_string(),
                 "ver" => {
                     let n = ver_seen.entry((e, r)).or_insert(0);
